@@ -14,7 +14,7 @@ ASSUMPTIONS = [
 ]
 BOUNDS = {
     "quick": "tries of 1 and 2 keys over key lengths {1,2}; query keys of length 1 and 2; prefixes of length 0, 1, 2; witness: prefix 1 byte + suffix 0/1 byte",
-    "thorough": "additionally tries of 3 one-byte keys, branch-for-another-key with 2-byte keys",
+    "thorough": "additionally tries of 3 one-byte keys (get_branch with a 1-byte query, prefix existence for 1-byte prefixes, node sets), witnesses for key lengths (1,2), branch-for-another-key with key lengths (1,2)",
 }
 OUTSIDE = "keys longer than 2 bytes, more than 3 stored keys, arbitrary bit-level alterations inside a node"
 
@@ -29,14 +29,15 @@ def obligations(tier):
     if tier != "quick":
         sets.append([1, 1, 1])
     for klens in sets:
-        for qlen in (1, 2):
-            add("get_branch refuses or yields a validating branch; wrong answer / truncated branch never validate", "h_branch", "b_branch", klens=klens, qlen=qlen)
-        for plen in (0, 1, 2):
+        three = len(klens) == 3
+        for qlen in (1,) if three else (1, 2):
+            add("get_branch refuses or yields a validating branch; wrong answer / truncated branch never validate", "h_branch", "b_branch", klens=klens, qlen=qlen, t=7200 if three else 3000)
+        for plen in (1,) if three else (0, 1, 2):
             add("check_if_branch_exist(p) iff some stored key starts with p", "h_exist", "b_exist", klens=klens, plen=plen)
         add("get_trie_nodes == nodes reachable from the root", "h_nodes", "b_nodes", klens=klens)
         if klens in ([1], [1, 1]):
             add("get_trie_nodes == nodes reachable from the root (32-byte values, which may equal a node hash)", "h_nodes", "b_nodes", klens=klens, vlen=32)
-    for klens in ([1, 1], [2, 2]) if tier == "quick" else ([1, 1], [2, 2], [1, 2], [1, 1, 1]):
+    for klens in ([1, 1], [2, 2]) if tier == "quick" else ([1, 1], [2, 2], [1, 2]):
         for plen, slen in ((1, 0), (1, 1), (0, 1), (2, 0)):
             add("witness for a prefix: only trie nodes, sufficient for every key below the prefix", "h_witness", "b_witness", klens=klens, plen=plen, slen=slen)
     add("a branch for another key never validates an answer the trie does not give", "h_branch_other", "b_branch_other", klens=[1, 1], qlen=1)
@@ -47,7 +48,7 @@ def obligations(tier):
             add("a branch forged from another trie (other value / key removed) never validates against the real root", "h_branch_foreign", "b_branch_foreign",
                 klens=klens, qlen=klens[0], drop_first=drop)
     if tier != "quick":
-        add("a branch for another key never validates an answer the trie does not give", "h_branch_other", "b_branch_other", klens=[2, 2], qlen=2, t=7200)
+        add("a branch for another key never validates an answer the trie does not give", "h_branch_other", "b_branch_other", klens=[1, 2], qlen=1, t=7200)
     return obs
 
 
